@@ -130,7 +130,10 @@ def on_quadric(A, x, tol=1e-9):
     if not np.all(np.isfinite(x)):
         return False
     v = x @ A @ x
-    return abs(v) <= tol * np.linalg.norm(A) * np.linalg.norm(x) ** 2
+    na, nx = np.linalg.norm(A), np.linalg.norm(x)
+    if not (np.isfinite(na) and na > 0 and nx > 0):
+        return False  # the zero matrix is not a quadric, the zero vector not a point
+    return abs(v) <= tol * na * nx**2
 
 
 def incident(h, x, tol=1e-9):
@@ -138,4 +141,7 @@ def incident(h, x, tol=1e-9):
     x = arr(x).astype(complex).ravel()
     if not (np.all(np.isfinite(x)) and np.all(np.isfinite(h))):
         return False
-    return abs(h @ x) <= tol * np.linalg.norm(h) * np.linalg.norm(x)
+    nh, nx = np.linalg.norm(h), np.linalg.norm(x)
+    if not (nh > 0 and nx > 0):
+        return False
+    return abs(h @ x) <= tol * nh * nx
